@@ -382,22 +382,58 @@ def wildMatch : Str → Str → Bool
       | [] => false
       | ch :: cs => (p == 63 || p == ch) && wildMatch ps cs
 
-/-- `regex_literal_prefix`: literal characters up to the first metacharacter or class escape;
+/-- `regex_literal_prefix` before repository commit eccd200 (kept for the `legacy_` witness):
+literal characters up to the first metacharacter or class escape;
 a leading `^` is skipped, `\\x` contributes `x` -/
-def rxPrefixGo : Bool → Bool → Str → Str
+def rxPrefixLegacyGo : Bool → Bool → Str → Str
   | _, _, [] => []
   | escaped, empty, ch :: cs =>
     if escaped then
       if ch = 100 ∨ ch = 68 ∨ ch = 119 ∨ ch = 87 ∨ ch = 115 ∨ ch = 83 ∨ ch = 98 ∨ ch = 66 ∨ ch = 112 ∨ ch = 80
       then []
-      else ch :: rxPrefixGo false false cs
-    else if ch = 92 then rxPrefixGo true empty cs
-    else if ch = 94 ∧ empty then rxPrefixGo false empty cs
+      else ch :: rxPrefixLegacyGo false false cs
+    else if ch = 92 then rxPrefixLegacyGo true empty cs
+    else if ch = 94 ∧ empty then rxPrefixLegacyGo false empty cs
     else if ch = 46 ∨ ch = 42 ∨ ch = 43 ∨ ch = 63 ∨ ch = 40 ∨ ch = 41 ∨ ch = 91 ∨ ch = 93 ∨ ch = 123 ∨
         ch = 125 ∨ ch = 124 ∨ ch = 36 ∨ (ch = 94 ∧ false) then []
-    else ch :: rxPrefixGo false false cs
+    else ch :: rxPrefixLegacyGo false false cs
 
-def rxPrefix (pat : Str) : Str := rxPrefixGo false true pat
+def rxPrefixLegacy (pat : Str) : Str := rxPrefixLegacyGo false true pat
+
+/-- `regex_has_top_level_alternation`: an unescaped `|` outside every group and character class -/
+def rxTopAlt : Bool → Nat → Bool → Str → Bool
+  | _, _, _, [] => false
+  | escaped, depth, cls, ch :: cs =>
+    if escaped then rxTopAlt false depth cls cs
+    else if ch = 92 then rxTopAlt true depth cls cs
+    else if ch = 91 ∧ cls = false then rxTopAlt false depth true cs
+    else if ch = 93 ∧ cls = true then rxTopAlt false depth false cs
+    else if ch = 40 ∧ cls = false then rxTopAlt false (depth + 1) cls cs
+    else if ch = 41 ∧ cls = false then rxTopAlt false (depth - 1) cls cs
+    else if ch = 124 ∧ cls = false ∧ depth = 0 then true
+    else rxTopAlt false depth cls cs
+
+/-- the scan of `regex_literal_prefix` (`acc` = prefix so far, reversed): literal characters up
+to the first metacharacter or class escape; a leading `^` is skipped, `\\x` contributes `x`; a
+quantifier `*`, `?`, `{` makes the literal before it optional, so that literal is removed again -/
+def rxPrefixAcc : Bool → Str → Str → Str
+  | _, acc, [] => acc.reverse
+  | escaped, acc, ch :: cs =>
+    if escaped then
+      if ch = 100 ∨ ch = 68 ∨ ch = 119 ∨ ch = 87 ∨ ch = 115 ∨ ch = 83 ∨ ch = 98 ∨ ch = 66 ∨ ch = 112 ∨ ch = 80
+      then acc.reverse
+      else rxPrefixAcc false (ch :: acc) cs
+    else if ch = 92 then rxPrefixAcc true acc cs
+    else if ch = 94 ∧ acc = [] then rxPrefixAcc false acc cs
+    else if ch = 42 ∨ ch = 63 ∨ ch = 123 then acc.tail.reverse
+    else if ch = 46 ∨ ch = 43 ∨ ch = 40 ∨ ch = 41 ∨ ch = 91 ∨ ch = 93 ∨ ch = 125 ∨ ch = 124 ∨ ch = 36
+    then acc.reverse
+    else rxPrefixAcc false (ch :: acc) cs
+
+/-- `regex_literal_prefix` (repository commit eccd200): no literal prefix for a pattern with a
+top-level alternation -/
+def rxPrefix (pat : Str) : Str :=
+  if rxTopAlt false 0 false pat then [] else rxPrefixAcc false [] pat
 
 /-- `wildcard_literal_prefix` -/
 def wildPrefix : Str → Str
